@@ -28,6 +28,12 @@ CLAIMED = {
  "C03": ("The real Selection.UpsertFrom/InsertFrom/UpdateFrom + editor run inside the interpreter over reference stores on a schema with leaves, defaults, nested containers and a keyed list with a nested container. Source and target trees have symbolic shape flags (every combination explored), full-width symbolic leaf values and symbolic int32 list keys (distinct per list; matches between source and target decided by the solver). The final target is compared with a reference keyed deep merge executed next to it (defaults only in created nodes, unmentioned paths unchanged); conflict / not-found outcomes must satisfy errors.Is(fc.ConflictError / fc.NotFoundError). Entry points: module root, container, list; rows per list <=1 quick / <=2 thorough.",
          NOTE_COMMON + "Outside the claim: reflection-backed nodes (map/slice/struct) and the JSON/XML readers as source or target, list-entry entry points, sequences of edits, schemas other than the one listed.",
          "DESIGN.md §2 C03"),
+ "C09": ("Sequences of 2 (quick) / 3 (thorough) upserts into a reference store through the real editor, each step drawn from 10 options (both choices of a container with leaf/container/list/shorthand cases, a choice nested in a case, data outside any choice), leaf values symbolic: after every step at most one case of every choice (nested ones included) holds data, the stored tree equals a reference model that clears the other cases and merges, data outside the choice is untouched, and a read (UpsertInto a fresh store) reports exactly the stored tree. A second harness covers a choice inside a list entry.",
+         NOTE_COMMON + "Outside the claim: Choose of reflection-backed nodes, of the JSON/XML readers, rpc input; the schema is one fixed module and the step options are an enumerated catalogue.",
+         "DESIGN.md §2 C09"),
+ "C18": ("Library layer only: Selection.Delete and ReplaceFrom executed over the reference store for 5 addressed node kinds (container, nested container, whole list, list entry by key, container below an entry) with symbolic content and keys: the store afterwards equals the reference store with exactly that subtree removed / replaced, and sequences of 2 (quick) / 3 (thorough) keyed upsert/insert/delete steps with symbolic keys never leave two entries with equal keys and keep every entry under the key its key leaf holds.",
+         NOTE_COMMON + "Outside the claim (and this is most of what the property worries about): the slice-, map- and struct-backed reflection stores (reflect.AppendSlice, SetMapIndex ...) cannot be interpreted; only which request reaches which parent with which key, inside which begin/end bracket, is checked. Keys are drawn from 0..255 so that their decimal text runs through the real strconv.",
+         "DESIGN.md §2 C18"),
 }
 NA_REASON = "engine under construction; no check registered yet"
 
